@@ -1,26 +1,36 @@
 (* C14 — Any layout file is either rejected with a message or runs without crashing.
    Statements only; proofs are in TM.ParserLemmas, TM.OdometerLemmas, TM.ConvertLemmas. *)
-From TM Require Import Base Json RustOps Fancy Mapper Parser Convert RustOpsLemmas ParserLemmas OdometerLemmas.
+From TM Require Import Base Json RustOps Fancy Mapper Parser Convert RustOpsLemmas ParserLemmas OdometerLemmas ExpandLemmas.
 
-(* FULL STATEMENT (in progress, see C14_loader_total below when present):
-     forall j site, load j <> Panic site
-   Proved so far: the parser half, for every JSON value, and the odometer. *)
+(* Loading (parse_layout_from_json, then convert) returns Ok or Err on EVERY
+   serde_json::Value: every modelled panic site of the parser and of the
+   converter (indexing, slicing, `len()-1`, `quantities[i]-1`, unwrap, the
+   from_table indices of adjust_repeats, the model's loop fuel) is unreachable. *)
+Theorem C14_loader_total : forall (j : json) (site : string), load j <> Panic site.
+Proof. exact load_total. Qed.
+Print Assumptions C14_loader_total.
+
+(* The converter alone never panics, on EVERY fancy layout (not only those the
+   parser can return). *)
+Theorem C14_converter_total : forall (f : fancy_layout) (site : string), convert f <> Panic site.
+Proof. exact convert_total. Qed.
+Print Assumptions C14_converter_total.
 
 (* parse_layout_from_json returns Ok or Err on EVERY serde_json::Value: each of
    its indexing, slicing, `len()-1` and unwrap sites is guarded. *)
-Theorem C14_parser_total_partial : forall (j : json) (site : string), parse_layout j <> Panic site.
+Theorem C14_parser_total : forall (j : json) (site : string), parse_layout j <> Panic site.
 Proof. exact parse_layout_total. Qed.
-Print Assumptions C14_parser_total_partial.
+Print Assumptions C14_parser_total.
 
 (* MultiplyIter: when every quantity is at least 1 the combination loop is a
    plain loop over the cartesian product (no `quantities[i]-1` underflow, no
    index out of range, terminates). *)
-Theorem C14_odometer_total_partial :
+Theorem C14_odometer_total :
   forall (St : Type) (c : combos) (body : list nat -> St -> res St) (s : St),
     Forall (fun q => (0 < q)%nat) (c_quant c) ->
     for_combinations c body s = fold_res (fun s t => body t s) (tuples (c_quant c)) s.
 Proof. intros St. exact (@for_combinations_spec St). Qed.
-Print Assumptions C14_odometer_total_partial.
+Print Assumptions C14_odometer_total.
 
 Example C14_example :
   tuples [2; 3]%nat = [[0; 0]; [1; 0]; [0; 1]; [1; 1]; [0; 2]; [1; 2]]%nat
